@@ -7,6 +7,9 @@ pub struct Block {
     pub target: String,
     pub command: String,
     pub bytes: Vec<u8>,
+    /// the header line carried ANSI colour codes (task block headers do; the stream header of a
+    /// `log tail` connection does not)
+    pub colored: bool,
 }
 
 fn strip_ansi(s: &[u8]) -> Vec<u8> {
@@ -73,7 +76,7 @@ pub fn parse_blocks(out: &[u8]) -> (Vec<u8>, Vec<Block>) {
         }
         let bare = if line.ends_with(b"\n") { &line[..line.len() - 1] } else { line };
         if let Some((f, t, c)) = parse_header(bare) {
-            blocks.push(Block { file: f, target: t, command: c, bytes: vec![] });
+            blocks.push(Block { file: f, target: t, command: c, bytes: vec![], colored: bare.contains(&0x1b) });
         } else {
             match blocks.last_mut() {
                 Some(b) => b.bytes.extend_from_slice(line),
